@@ -37,6 +37,14 @@ Lines moved into INCLUDE files where the INCLUDE line itself would act as a stat
     include files, reserved space; tree spelling and flat spelling against Spec/InclPad (the PADDING paragraph as layout) and Model/InclPad (asmlabel.c,
     InsertPadding, ResetLastLabel of Produce_Code); Props/C16_Incl.lean: tree = flat on the model for every tree.
 
+Letter case inside one token and in the parameter field (added after seeded change C16-k was missed: the upper-casing of the M16C format letter in `MOV.B:s`):
+  * the mnemonic field of the targets with AttrChars ".:" (`MOV.B:G`, `BCLR:G`) was not recognised as a mnemonic with attribute and never recased; it is now, with
+    per-letter and per-part styles (`MoV.b:s`), and the Lean gate splits such lines with the target's own AttrChars (pspec 2e3a);
+  * the parameter field of every statement without character / string constants is recased word by word (registers, hex digits, `h`/`x` number letters, symbols,
+    functions); the model gate for such a line is "fields equal up to letter case of mnemonic, attribute and parameters" (Spec/SrcLine.lean normAll, c16pair eqc);
+  * Model/AttrPart.lean (DecodeAttrPart_M16C + CheckFormat) and Props/C16_Attr.lean: C16_attr_case_m16c - two spellings of an attribute that differ only in letter
+    case give the same size, format text and error decision, for every AttrSplit and every previous content of the Format buffer.
+
 The rewrite generator is deliberately conservative (a false alarm is worse than a miss); every exclusion is listed in
 EXCLUSIONS below and counted in the evidence.
 """
@@ -56,7 +64,15 @@ EXCLUSIONS = [
     "MACRO/IRP/IRPC/IRPN/REPT/WHILE header lines, their bodies and the ENDM line: untouched (parameters may be stringified / re-split)",
     "lines containing \\{ (string interpolation): untouched; '#' preprocessor lines: only '#define NAME text' / '#undef NAME' are respelled, and only in the "
     "gaps between directive, name and text, the case of the directive word and trailing blanks (no comment is added: Preprocess() does not cut comments)",
-    "letter case: only the mnemonic field (incl. attribute) and only if it is a plain [A-Za-z_][A-Za-z0-9_]* word with optional .attr; never operands, symbols, strings; with -U in asflags never for names defined as MACRO/STRUCT/UNION in the file",
+    "letter case of the mnemonic field (incl. attribute): only if it is a plain [A-Za-z_][A-Za-z0-9_]* word with optional .attr - on the targets whose SwitchTo function sets "
+    "AttrChars = '.:' (read from the current /repo sources: M16C, M16, H8/500, H16, 97C241) with up to three .attr / :attr parts in either order; upper, lower, per-letter random, or "
+    "every part (mnemonic, size, format) in a style of its own; with -U in asflags never for names defined as MACRO/STRUCT/UNION in the file",
+    "letter case of the parameter field (register names, hex digits, number-system letters, symbols, built-in functions, keywords - every word that contains a letter gets a style of its "
+    "own): never with -U; never in a parameter field that holds a quote or a backslash (character / string constants keep their spelling); not for INCLUDE/BINCLUDE/READ/CPU/PAGE/END, "
+    "not on calls of macros / structures defined in the file (parameters may be stringified), not on prefix-style statements (PREFIX_KINDS) and not on ST9 targets (the manual's ST9 "
+    "hints: general registers `R...` vs working registers `r...` - the case of a register name is its meaning there); label fields keep their spelling; on DSP56xxx sources the "
+    "free-standing accumulator names A / B keep the golden spelling in runs that also get a whole-file rewrite (the known finding " + "dsp56k-parallel-move-accumulator-spelled-in-two-cases-refused" + " is "
+    "then only reachable in plain runs, where it is attributed exactly: same run with A / B restored must reproduce the .ori)",
     "blanks: only trailing, before the mnemonic (where a blank already is; the whole run may be respelled blank<->tab), between mnemonic and argument field (inserted or the "
     "whole run respelled), and directly after a top-level ',' of the argument field; never inside an operand.  Inside the first parameter only for the prefix-style "
     "statements of PREFIX_KINDS (MSP430X RPTC/RPTZ, TMS320C6x ||/[cond], uPD772x OP, Rabbit 2000 ALTD), where the first parameter carries a further mnemonic: the gaps "
@@ -202,6 +218,28 @@ def _analyze(line):
 
 
 OP_RE = re.compile(r"^[A-Za-z_][A-Za-z0-9_]*(\.[A-Za-z0-9_]+)?$")
+# targets whose SwitchTo_*() sets AttrChars = ".:" (mnemonic.size:format / mnemonic:format.size): the whole attribute, with both separators, is mnemonic field
+OP_RE_COLON = re.compile(r"^[A-Za-z_][A-Za-z0-9_]*([.:][A-Za-z0-9_]+){0,3}$")
+PSPEC_COLON = "2c/1/2e3a/3b/n"
+_ATTR_COLON_CPUS = None
+
+
+def attr_colon_cpus():
+    """CPU names (upper case) of the code generators whose SwitchTo function sets AttrChars to a set containing ':' - read from the current /repo sources"""
+    global _ATTR_COLON_CPUS
+    if _ATTR_COLON_CPUS is None:
+        out = set()
+        try:
+            for fn in sorted(os.listdir(common.REPO)):
+                if not (fn.startswith("code") and fn.endswith(".c")):
+                    continue
+                t = open(os.path.join(common.REPO, fn), "rb").read().decode("latin-1")
+                if re.search(r'AttrChars\s*=\s*"[^"]*:[^"]*"', t):
+                    out |= {m.upper() for m in re.findall(r'AddCPU\w*\(\s*"([^"]+)"', t)}
+        except OSError:
+            pass
+        _ATTR_COLON_CPUS = out
+    return _ATTR_COLON_CPUS
 BODY_OPEN = {"MACRO", "IRP", "IRPC", "IRPN", "REPT", "WHILE"}
 
 
@@ -337,15 +375,43 @@ def blanks(rng):
 
 
 def recase(rng, s):
-    k = rng.randrange(3)
+    k = rng.randrange(4)
     if k == 0:
         return s.upper()
     if k == 1:
         return s.lower()
+    if k == 2:
+        # every component (mnemonic, each attribute part) in a style of its own: MOV.b:G, mov.B:s
+        return "".join(p if p in ".:" else (p.upper(), p.lower(), "".join(c.upper() if rng.random() < 0.5 else c.lower() for c in p))[rng.randrange(3)]
+                       for p in re.split(r"([.:])", s))
     return "".join(c.upper() if rng.random() < 0.5 else c.lower() for c in s)
 
 
-def rewrite_line(rng, line, caseok_names, stats, blank_divides=False, kind=None):
+# ---- letter case in the parameter field (register names, hex digits, number-system letters, symbols, built-in functions, keywords)
+# ST9: the manual's ST9 hints distinguish general registers `R...` (register file) from working registers `r...`: the case of a register name is its meaning there
+ARGCASE_CASE_MEANS_CPUS = ("ST90",)
+KNOWN_56K_SIG = "dsp56k-parallel-move-accumulator-spelled-in-two-cases-refused"
+ACC_WORD_RE = re.compile(r"(?<![A-Za-z0-9_.$@?])[aAbB](?![A-Za-z0-9_.$@?])")
+ARGCASE_SKIP_OPS = {"INCLUDE", "BINCLUDE", "READ", "CPU", "PAGE", "ENDM", "END"}
+ARG_WORD_RE = re.compile(r"[A-Za-z0-9_.$@?]*[A-Za-z][A-Za-z0-9_.$@?]*")
+
+
+def recase_args(rng, argtext):
+    """every word of the parameter field (maximal run of name / number characters that contains a letter) gets a style of its own: upper, lower, per-letter random, unchanged"""
+    def one(m):
+        w = m.group(0)
+        k = rng.randrange(5)
+        if k == 0:
+            return w.upper()
+        if k == 1:
+            return w.lower()
+        if k == 2:
+            return w
+        return "".join(c.upper() if rng.random() < 0.5 else c.lower() for c in w)
+    return ARG_WORD_RE.sub(one, argtext)
+
+
+def rewrite_line(rng, line, caseok_names, stats, blank_divides=False, kind=None, colon_attr=False, argcase=None):
     """returns (new line, list of rewrite kinds applied)"""
     a = analyze(line)
     kinds = []
@@ -382,11 +448,24 @@ def rewrite_line(rng, line, caseok_names, stats, blank_divides=False, kind=None)
     if a["op"] and rng.random() < 0.5:
         s, e = a["op"]
         tok = body[s:e]
-        if OP_RE.match(tok) and tok.upper().split(".")[0] not in caseok_names:
+        if (OP_RE_COLON if colon_attr else OP_RE).match(tok) and re.split(r"[.:]", tok.upper())[0] not in caseok_names:
             nt = recase(rng, tok)
             if nt != tok:
                 edits.append((s, e - s, nt))
                 kinds.append("case")
+                if ":" in tok:
+                    kinds.append("case-colon-attr")
+    # letter case of the parameter field: only where it holds no quote / backslash (character and string constants keep their spelling) and the statement is
+    # not one whose parameters are file names or (ARGCASE_SKIP_OPS) / a call of a macro defined in this file (parameters may be stringified in the body)
+    args_new = None
+    if argcase is not None and a["op"] and a["argstart"] < len(body) and rng.random() < 0.4:
+        opu_ = re.split(r"[.:]", body[a["op"][0]:a["op"][1]].upper())[0]
+        argtext = body[a["argstart"]:]
+        if not any(c in argtext for c in "\"'\\") and opu_ not in ARGCASE_SKIP_OPS and opu_ not in argcase:
+            na = recase_args(rng, argtext)
+            if na != argtext:
+                args_new = na      # same length: applied in place before the positional edits below
+                kinds.append("case-args")
     # blanks before the mnemonic: inserted, or the whole run respelled (blank <-> tab)
     if a["op"] and rng.random() < 0.35:
         s = a["op"][0]
@@ -436,6 +515,8 @@ def rewrite_line(rng, line, caseok_names, stats, blank_divides=False, kind=None)
                 edits.append((k + 1, 0, blanks(rng)))
                 if "gap-after-comma" not in kinds:
                     kinds.append("gap-after-comma")
+    if args_new is not None:
+        body = body[:a["argstart"]] + args_new
     # right to left; at one position the replacement first, then the insertion in front of it
     for pos, dele, ins in sorted(edits, key=lambda t: (-t[0], t[1] == 0)):
         body = body[:pos] + ins + body[pos + dele:]
@@ -460,6 +541,16 @@ def rewrite_line(rng, line, caseok_names, stats, blank_divides=False, kind=None)
     return body + comment, kinds
 
 
+def _restore_acc(orig, rewritten):
+    """the rewritten line with every free-standing accumulator name A / B spelled as in the original (recasing keeps positions only without the positional edits,
+    so the words are matched in order)"""
+    ow = ACC_WORD_RE.findall(orig)
+    it = iter(ow)
+    if len(ACC_WORD_RE.findall(rewritten)) != len(ow):
+        return orig
+    return ACC_WORD_RE.sub(lambda m: next(it), rewritten)
+
+
 def split_lines(raw):
     """physical lines of a source (latin-1 text) with their line ends"""
     out = []
@@ -481,7 +572,8 @@ def rewrite_source(rng, raw, flags, stats, mode):
     pl = split_lines(raw)
     lines = [l for l, _ in pl]
     frozen, noinsert, names = classify(lines)
-    case_names = names if any(f.startswith("-U") or f == "-u" for f in flags) else set()
+    case_sensitive = any(f.startswith("-U") or f == "-u" for f in flags)
+    case_names = names if case_sensitive else set()
     uses_momline = "MOMLINE" in raw.upper()
     # DSP56xxx: blanks separate parallel moves (DivideChars = " \t"), so a blank after ',' is NOT immaterial there
     blank_divides = any(f.lower().startswith("56") for f in flags) or any(
@@ -507,10 +599,13 @@ def rewrite_source(rng, raw, flags, stats, mode):
                 stats["frozen_lines"] += 1
             continue
         kp = PREFIX_KINDS.get(cur_cpu)
-        nl, kinds = rewrite_line(rng, l, case_names, stats, blank_divides, kp[0] if kp else None)
+        colon_attr = cur_cpu in attr_colon_cpus()
+        nl, kinds = rewrite_line(rng, l, case_names, stats, blank_divides, kp[0] if kp else None, colon_attr=colon_attr,
+                                 argcase=None if (case_sensitive or kp or (cur_cpu or "").startswith(ARGCASE_CASE_MEANS_CPUS)) else names)
         new.append((nl, kinds))
         if nl != l:
-            pairs.append((i, l, nl, ("px", kp[0], kp[1]) if any(k.startswith("prefix-inner") for k in kinds) else ("pair",)))
+            pairs.append((i, l, nl, ("px", kp[0], kp[1]) if any(k.startswith("prefix-inner") for k in kinds)
+                          else ("pair", PSPEC_COLON if colon_attr else PSPEC, "case-args" in kinds)))
     return pl, lines, new, pairs, frozen, noinsert, uses_momline
 
 
@@ -1008,7 +1103,7 @@ def run(args):
                         if not sub:
                             continue
                         if sel_ == "pair":
-                            reqs = ["%s %s %s" % (PSPEC, hx(a), hx(b)) for _, (_, a, b, _) in sub]
+                            reqs = ["%s %s %s" % (g[1], hx(a), hx(b)) for _, (_, a, b, g) in sub]
                         elif sel_ == "px":
                             reqs = ["%s %s %s %s" % (g[2], g[1], hx(a), hx(b)) for _, (_, a, b, g) in sub]
                         else:
@@ -1016,7 +1111,8 @@ def run(args):
                         ans = common.driver(mode_, reqs)
                         for q, (j, pr) in enumerate(sub):
                             if sel_ == "pair":
-                                answers[j] = ("eq=1" in ans[q], ans[q])
+                                # a line whose parameter field was recased: fields equal up to letter case of mnemonic, attribute AND parameters (eqc)
+                                answers[j] = ((" eqc=1" in ans[q]) if pr[3][2] else ("eq=1" in ans[q].split()), ans[q])
                             elif sel_ == "px":
                                 answers[j] = ("eq=1" in ans[q] and "px=1" in ans[q] and "ok=1" in ans[q], ans[q])
                             else:
@@ -1028,6 +1124,11 @@ def run(args):
                             if len([x for x in samples if x.get("kind") == "model-rejected"]) < 3:
                                 samples.append(dict(kind="model-rejected", test=name, orig=a, rewritten=b, gate=g[0], answer=r))
                             new[i] = (lines[i], [])
+                if stats.get("blank_divides") and (tidx + s + args.seed) % 3 != 0:
+                    # DSP56xxx, runs that also get a whole-file rewrite: the accumulator names A / B keep the golden spelling, so that the known finding
+                    # KNOWN_56K_SIG can only arise in the plain runs, where it is attributed exactly (see the failure branch below)
+                    new = [((_restore_acc(lines[i], l), k) if "case-args" in k else (l, k)) for i, (l, k) in enumerate(new)]
+                    dist["dsp56_acc_spelling_kept_runs"] = dist.get("dsp56_acc_spelling_kept_runs", 0) + 1
                 counts = {}
                 nrew = 0
                 for i, (l, kinds) in enumerate(new):
@@ -1101,6 +1202,20 @@ def run(args):
                                 changed_lines=[dict(line=i + 1, orig=lines[i], rewritten=l, kinds=k) for i, (l, k) in enumerate(new) if l != lines[i]][:400])
                     if whole == "to-macro" and "symbol double defined" in diag and builtin_sets(raw) >= 2:
                         fail["sig"] = "to-macro-second-cpu-or-flag-statement-double-defined"
+                    if stats.get("blank_divides") and whole is None and any("case-args" in k for _, k in new):
+                        # DSP56xxx `MOVE acc,X:<ea> X0,acc` / `MOVE Y0,acc acc,Y:<ea>`: is the run clean once the accumulator names A / B stand as in the golden source
+                        # in every parameter field (all other rewrites of the run kept)?  Then the one thing wrong is the known case-sensitive comparison of the two.
+                        new2 = [(l if "case-args" not in k else _restore_acc(lines[i], l), k) for i, (l, k) in enumerate(new)]
+                        if any(a_[0] != b_[0] for a_, b_ in zip(new, new2)):
+                            e_ = "\r\n" if eol_mode == "crlf" else "\n"
+                            for fn in os.listdir(d):
+                                os.unlink(os.path.join(d, fn))
+                            stats2 = dict(frozen_lines=0)
+                            text2 = assemble_text(common.rng_for(args.seed, "C16/%s/%d/acc" % (name, s)), pl, new2, noinsert, uses_momline, eol_mode, stats2, {}, dense=False)
+                            open(os.path.join(d, name + ".asm"), "wb").write(text2.encode("latin-1"))
+                            img2, _ = build_image(bdir, d, name, flags, [tdir])
+                            if img2 == ori:
+                                fail["sig"] = KNOWN_56K_SIG
                     minimise(bdir, d, name, flags, tdir, ori, lines, new, pl, fail, whole, eol_mode, inserted)
                     spec_fail.append(fail)
             shutil.rmtree(d, ignore_errors=True)
@@ -1244,7 +1359,7 @@ def run(args):
         log("C16: %d runs hit the known finding %s: %s" % (nkt, c16_long.KNOWN_TAB_SIG, ", ".join(f.get("tag") for f in spec_fail if f.get("sig") == c16_long.KNOWN_TAB_SIG)[:600]))
     nlog = 0
     for f in spec_fail:
-        if f.get("sig") in ("to-macro-second-cpu-or-flag-statement-double-defined", "upd772x-op-operandless-inner-mnemonic-case-sensitive", c16_long.KNOWN_TAB_SIG):
+        if f.get("sig") in ("to-macro-second-cpu-or-flag-statement-double-defined", "upd772x-op-operandless-inner-mnemonic-case-sensitive", c16_long.KNOWN_TAB_SIG, KNOWN_56K_SIG):
             continue
         nlog = nlog + 1
         if nlog <= 16:
